@@ -43,7 +43,7 @@ def exhaustive(tier):
 
 def cases(tier, seed):
     rng = np.random.default_rng(subseed("C07", seed))
-    nprob = 256 if tier == "quick" else 4000
+    nprob = 420 if tier == "quick" else 6000
     for i in range(nprob):
         ps = gen.rand_spec(rng, FAMS, nmax=7, nmin=2, boxes=("none", "mixed", "boxed", "lower", "narrow"),
                            starts=("interior", "face", "vertex", "outward"), condmax=1e3)
